@@ -89,7 +89,11 @@ fn main() {
             continue;
         }
         let case: Value = serde_json::from_str(&line).expect("json case");
-        let res = std::panic::catch_unwind(|| dispatch(&case))
+        // optional "in_pool": the whole case runs inside a rayon pool of that many worker threads (worker counts that do not divide
+        // the vector length, e.g. 3, 5, 6)
+        let res = std::panic::catch_unwind(|| match case.get("in_pool").and_then(|v| v.as_u64()) {
+                Some(k) => rayon::ThreadPoolBuilder::new().num_threads(k as usize).build().unwrap().install(|| dispatch(&case)),
+                None => dispatch(&case) })
             .unwrap_or_else(|p| { let mut v = util::panic_json(p); v["r"] = json!("panic"); v });
         writeln!(out, "{}", res).unwrap();
     }
